@@ -1608,11 +1608,91 @@ def canon(txt):
         return txt
 
 
+def _formula(node):
+    """path-condition AST -> ('and' | 'or', [..]) / ('not', f) / ('atom', text); `a != b`, `a is not b`, `a not in b` are the negated positive atoms."""
+    if isinstance(node, ast.BoolOp):
+        return ("and" if isinstance(node.op, ast.And) else "or", [_formula(v) for v in node.values])
+    if isinstance(node, ast.UnaryOp) and isinstance(node.op, ast.Not):
+        return ("not", _formula(node.operand))
+    if isinstance(node, ast.Compare) and len(node.ops) == 1 and isinstance(node.ops[0], (ast.NotEq, ast.IsNot, ast.NotIn)):
+        pos = {ast.NotEq: ast.Eq, ast.IsNot: ast.Is, ast.NotIn: ast.In}[type(node.ops[0])]()
+        return ("not", ("atom", ast.unparse(ast.Compare(left=node.left, ops=[pos], comparators=node.comparators))))
+    if isinstance(node, ast.Constant) and isinstance(node.value, bool):
+        return ("and", []) if node.value else ("or", [])
+    return ("atom", ast.unparse(node))
+
+
+def _atoms(f, out):
+    if f[0] == "atom":
+        out.add(f[1])
+    elif f[0] == "not":
+        _atoms(f[1], out)
+    else:
+        for x in f[1]:
+            _atoms(x, out)
+    return out
+
+
+def _value(f, env):
+    if f[0] == "atom":
+        return env[f[1]]
+    if f[0] == "not":
+        return not _value(f[1], env)
+    if f[0] == "and":
+        return all(_value(x, env) for x in f[1])
+    return any(_value(x, env) for x in f[1])
+
+
+def entailed(conds, query):
+    """do the tests passed on a path (text -> outcome) force the truth value of `query` (a condition text)?  -> True / False / None.
+    Propositional reasoning over the atoms of the tests: `A or B` passed and `A` failed gives B, cached test results and merged or
+    split guards read alike.  Decided by enumerating the assignments of the atoms connected to the query (an infeasible
+    combination of outcomes entails everything: no execution takes that path)."""
+    import itertools as _it
+    try:
+        q = _formula(ast.parse(query, mode="eval").body)
+    except SyntaxError:
+        return None
+    facts = []
+    for k, v in conds.items():
+        try:
+            f = _formula(ast.parse(k, mode="eval").body)
+        except SyntaxError:
+            continue
+        facts.append(f if v else ("not", f))
+    need = _atoms(q, set())
+    used, grew = [], True
+    while grew:
+        grew = False
+        for f in facts:
+            if f in used:
+                continue
+            a = _atoms(f, set())
+            if a & need:
+                used.append(f)
+                need |= a
+                grew = True
+    names = sorted(need)
+    if len(names) > 16:
+        from ._shared import forced
+        return forced(query, conds)
+    seen = set()
+    for bits in _it.product((False, True), repeat=len(names)):
+        env = dict(zip(names, bits))
+        if all(_value(f, env) for f in used):
+            seen.add(_value(q, env))
+            if len(seen) == 2:
+                return None
+    if not seen:
+        return True if not used else "infeasible"
+    return seen.pop()
+
+
 def holds(conds, *alternatives):
-    """True iff the path conditions force one of the (atom text, truth value) alternatives."""
-    from ._shared import forced
+    """True iff the path conditions force one of the (condition text, truth value) alternatives."""
     for atom, val in alternatives:
-        if forced(canon(atom), conds) is val:
+        r = entailed(conds, canon(atom))
+        if r == "infeasible" or r is val:
             return True
     return False
 
@@ -2034,4 +2114,17 @@ WITNESSES = [
     dict(name="silent-demand-move-by-extend", file=SKEL, silent=True,
          old="            for demand in junc.demand_timeseries_list:\n                closest_junc.demand_timeseries_list.append(demand)\n",
          new="            closest_junc.demand_timeseries_list.extend(junc.demand_timeseries_list)\n"),
+    dict(name="silent-cached-isinstance-and-implied-last-branch", file=SKEL, silent=True,
+         old="            if not ((isinstance(neigh_junc0, Junction)) or \\\n               (isinstance(neigh_junc1, Junction))):\n                continue\n",
+         new="            is_junc0 = isinstance(neigh_junc0, Junction)\n            is_junc1 = isinstance(neigh_junc1, Junction)\n            if not (is_junc0 or is_junc1):\n                continue\n",
+         also=[("            if (isinstance(neigh_junc0, Junction)) and \\\n               (isinstance(neigh_junc1, Junction)):\n", "            if is_junc0 and is_junc1:\n"),
+               ("            elif (isinstance(neigh_junc0, Junction)):\n                closest_junc = neigh_junc0\n            elif (isinstance(neigh_junc1, Junction)):\n"
+                "                closest_junc = neigh_junc1\n            else:\n                continue\n",
+                "            elif is_junc0:\n                closest_junc = neigh_junc0\n            else:\n                closest_junc = neigh_junc1\n"),
+               ("            if len(neighbors) > 1:\n                continue\n            if len(neighbors) == 0:\n                continue\n",
+                "            if len(neighbors) != 1:\n                continue\n")]),
+    dict(name="series-receiver-unguarded-last-branch", file=SKEL,
+         old="            elif (isinstance(neigh_junc1, Junction)):\n                closest_junc = neigh_junc1\n            else:\n                continue\n",
+         new="            else:\n                closest_junc = neigh_junc1\n",
+         also=[("            if not ((isinstance(neigh_junc0, Junction)) or \\\n               (isinstance(neigh_junc1, Junction))):\n                continue\n", "")], rule="R-C19-5"),
 ]
